@@ -23,6 +23,10 @@ R07.f  per-machine tables: an entry stored under machine ``m`` inside
 R07.h  no function of these modules modifies the object of a mutable default
        argument (directly, through a local alias, or with ``+=``): the result
        of a call must not depend on earlier calls.
+R07.i  no for-loop variable of these modules is read after its loop (a statement
+       left one indentation level too shallow sees only the last element).
+R07.j  no str-Enum value (FeatureType, ...Type) is tested by identity: plain strings
+       are accepted for these enums and are equal, not identical, to the member.
 """
 
 from __future__ import annotations
@@ -49,6 +53,8 @@ MANIFEST = {
         "Not decided: non-emptiness and the exactness of each documented "
         "criterion, which depend on start-time values."
         " Also decided: no function of these modules accumulates into a mutable default argument."
+        " Also decided: no for-loop variable of these modules is read after its loop (statement left one indentation level too shallow)."
+        " Also decided: no str-Enum value is tested by identity (plain strings are accepted for these enums)."
     ),
     "note": (
         "User-supplied filters are outside the quantifier. The sub-list proof "
@@ -142,6 +148,12 @@ def registry(ctx, factory: FuncInfo, enum_name: str):
 
 def run(ctx):
     chk = ctx.chk
+    from .common import check_str_enum_identity
+
+    check_str_enum_identity(ctx, "R07.j", ("job_shop_lib.dispatching._ready_operation_filters", "job_shop_lib.dispatching._factories"), "the filter")
+    from .common import check_loop_variable_leaks
+
+    check_loop_variable_leaks(ctx, "R07.i", ("job_shop_lib.dispatching._ready_operation_filters", "job_shop_lib.dispatching._factories"), "the filter")
     from .common import check_mutable_defaults
 
     check_mutable_defaults(ctx, "R07.h", ("job_shop_lib.dispatching._ready_operation_filters", "job_shop_lib.dispatching._factories"), "the filter")
